@@ -169,11 +169,22 @@ func TestC02(t *testing.T) {
 	}
 	r.Parallel(t, "general", r.Cfg.pick(4000, 50000), func(t *testing.T, idx int, rng *rand.Rand) {
 		c := r.prioCase(t, genPrioScenario(rng, prioGen{Vers: allVers, Dividers: allDividers, Mode: "general"}))
+		if c.res != nil && c.res.Stolen > 0 {
+			r.Count("scenarios_with_a_second_consumer_on_an_input", 1)
+			r.Count("items_taken_by_second_consumers", int64(c.res.Stolen))
+		}
 		if c.res != nil && c.res.Terminated && c.res.TermWay == "drained" && c.res.PriosWith2 >= 2 {
 			r.NonTrivial(jsonString(c.sc))
 			if r.WantSample() {
 				r.Sample(prioSample(c))
 			}
+		}
+	})
+	// a priority without share until another one is removed: what is written afterwards is delivered
+	r.Parallel(t, "v1-share-appears-after-remove", r.Cfg.pick(400, 6000), func(t *testing.T, idx int, rng *rand.Rand) {
+		c := r.prioCase(t, genPrioScenario(rng, prioGen{Vers: []string{"v1"}, Dividers: []string{"fair", "rate", "rate", "hashw", "toprem"}, Mode: "starvedrm"}))
+		if c.res != nil && c.res.Unstarved && c.res.Terminated && c.res.TermWay == "drained" {
+			r.NonTrivial(jsonString(c.sc))
 		}
 	})
 	r.Parallel(t, "v1-add-remove", r.Cfg.pick(1500, 15000), func(t *testing.T, idx int, rng *rand.Rand) {
@@ -317,6 +328,9 @@ func TestC07(t *testing.T) {
 			return
 		}
 		r.Count("hold_observations(still open)", int64(c.res.HoldChecks))
+		if c.res.NeverEndedHeld {
+			r.Count("scenarios_with_a_nil_input_channel_that_stayed_open", 1)
+		}
 		if c.res.Terminated && c.res.TermWay == "drained" && c.res.HoldChecks >= 1 {
 			r.NonTrivial(jsonString(c.sc))
 			if r.WantSample() {
@@ -348,8 +362,8 @@ func TestC07(t *testing.T) {
 	r.Parallel(t, "simple-rough-termination", r.Cfg.pick(500, 15000), func(t *testing.T, idx int, rng *rand.Rand) {
 		sc := genPrioScenario(rng, prioGen{Vers: []string{"v1s", "v1s", "v2s"}, Dividers: allDividers, Mode: "stop", MaxH: 32})
 		if sc.Ver == "v2s" || rng.IntN(4) == 0 {
-			kinds := []string{"plus1", "double", "minus1"}
-			sc.Fault = &DivFault{At: 1 + rng.IntN(20), Kind: kinds[rng.IntN(3)]}
+			kinds := []string{"plus1", "double", "minus1", "outside"}
+			sc.Fault = &DivFault{At: 1 + rng.IntN(20), Kind: kinds[rng.IntN(len(kinds))]}
 		}
 		c := r.prioCase(t, sc)
 		if c.res != nil && c.res.Terminated && c.res.MaxHeld > 0 {
